@@ -360,6 +360,12 @@ class _Raw:
 
     def _session(self, agg_nonce: bytes) -> Any:
         """Every party assembles the session context for itself."""
+        if self.T is not None and self.ctx.ch.chance(1, 4, "session.plain-twin-first?"):
+            # a party's software that first looks at the session as BIP327 defines it -- the same nonce, keys, tweaks and
+            # message, no adaptor -- e.g. to show the user the key it signs for: public data, and another session
+            twin = self.m.SessionContext(agg_nonce, self.keys, self.tweaks, self.xonly, self.msg)
+            self.m.session_values(twin)
+            self.ctx.fault("plain-twin-session-derived-first")
         return self.m.SessionContext(agg_nonce, self.keys, self.tweaks, self.xonly, self.msg, self.T)
 
     def round1(self, i: int) -> tuple[bytearray, bytes]:
